@@ -332,6 +332,7 @@ pub fn c14_cases(c: &Corpus, quick: bool) -> Vec<Circuit> {
         digest_steps: vec![],
         reorder_seed: 0,
         tamper_bits: false,
+        tamper_free: false,
     };
     let _ = quick;
     // decode, directly and through a lazily evaluated variable
@@ -508,6 +509,47 @@ pub fn c14_cases(c: &Corpus, quick: bool) -> Vec<Circuit> {
             }
         }
     }
+    // witness-tampering prover, free booleans: every hint substitution, then every boolean flip with repair
+    {
+        let tf = |ops: Vec<R1Op>, hints: Vec<HintSub>| Circuit {
+            ops,
+            hints,
+            enc_hints: vec![],
+            digest_steps: vec![],
+            reorder_seed: 0,
+            tamper_bits: false,
+            tamper_free: true,
+        };
+        let some_encs: Vec<&Hex> = encs.iter().skip(1).take(2).chain(encs.iter().skip(17).take(if quick { 4 } else { 12 })).collect();
+        for s in some_encs {
+            for sub in std::iter::once(&HintSub::honest()).chain(subs.iter()) {
+                out.push(tf(
+                    vec![
+                        R1Op::AllocFqVar {
+                            mode: Mode::Witness,
+                            v: s.clone(),
+                        },
+                        R1Op::Decompress(0),
+                    ],
+                    vec![sub.clone()],
+                ));
+            }
+        }
+        for x in fqs.iter().take(if quick { 6 } else { 25 }) {
+            for sub in std::iter::once(&HintSub::honest()).chain(subs.iter()) {
+                out.push(tf(
+                    vec![
+                        R1Op::AllocFqVar {
+                            mode: Mode::Witness,
+                            v: x.clone(),
+                        },
+                        R1Op::Isqrt(0),
+                    ],
+                    vec![sub.clone()],
+                ));
+            }
+        }
+    }
     // witness-tampering prover: honest hints, then every witnessed bit decomposition rewritten to v + q
     {
         use num_bigint::BigUint;
@@ -532,6 +574,7 @@ pub fn c14_cases(c: &Corpus, quick: bool) -> Vec<Circuit> {
             digest_steps: vec![],
             reorder_seed: 0,
             tamper_bits: true,
+        tamper_free: true,
         };
         for s in &neg {
             out.push(t(vec![
